@@ -15,6 +15,14 @@ documented corrected+uncorrected pair), in file order; per DataSet the frequenci
 the written ones within TOL, Im with the documented sign (columns marked with a leading '-'/U+2212 and the -Im
 columns of .mpt/.P00/.dfr are negated).  A library exception on such a file is a violation.
 
+Multi-sweep tables (csv/txt, DataFrames, .mpt): all sweeps of a file share the row order and a new sweep begins where
+the frequency turns back (that reversal is the only thing that marks a sweep, so descending rows that simply go on
+descending are one sweep and are never written as two).  Beyond that the sweeps are unrelated: same grid or a
+prefix of it, a later sweep entirely above (descending rows) / below (ascending rows) the first so that the file ends
+beyond where it started, shifted, partially overlapping, nested, different lengths, one- and two-point sweeps among
+longer ones (never as the first sweep: the first two rows define the row order).  finalize() is INCONCLUSIVE if one of
+these kinds was not written.
+
 Latitude / things not demanded: labels, paths and uuids of the returned DataSets; which parser answers as long as the
 data are right; files outside the detection contract are never generated (comma decimal with comma separator, header
 text containing the separator).  Extension-less tables whose frequency header is literally the signature line of an
@@ -44,7 +52,8 @@ ID = "C06"
 RULE = (
     "files are generated from layout configurations: (a) random valid csv cells over 19 dimensions {coords, 5 header "
     "names (documented aliases + to_dataframe defaults + /unit forms), unit suffix, letter case, negation marker on "
-    "Re/Im/phase, separator, decimal mark, row order, 1..3 sweeps, column order, number format, access mode, size class}, "
+    "Re/Im/phase, separator, decimal mark, row order, 1..3 sweeps (later sweeps on the same grid, entirely beyond the first, "
+    "shifted, nested, anywhere, or 1-2 points long; different lengths), column order, number format, access mode, size class}, "
     "completed so that every feasible PAIR of values is present (quick) ; (b) the block of all (frequency, real, imaginary) and "
     "(frequency, modulus, phase) header-name triples, in thorough crossed exhaustively with case x separator/decimal x "
     "negation markers x row order; (c) the six instrument layouts x variants x row order x access mode; (d) DataFrames "
@@ -309,6 +318,18 @@ def run_job(job, res):
     layout, mode = job["layout"], job["mode"]
     st("files:" + layout if layout != "df" else "frames:" + mode)
     st("mode:" + mode)
+    exp = job["expected"]
+    if len(exp) > 1 and layout in ("csv", "df", "mpt"):  # consecutive sweeps in one table (not the .dta corrected/uncorrected pair)
+        f0, f1, fl = exp[0]["f"][0], exp[0]["f"][1], exp[-1]["f"][-1]
+        st("multi_sweep_tables")
+        if (fl >= f0) if f0 > f1 else (fl <= f0):
+            st("multi_sweep_tables:last_row_beyond_first_row")
+        if len({len(e["f"]) for e in exp}) > 1:
+            st("multi_sweep_tables:sweeps_of_different_length")
+        if any(len(e["f"]) == 1 for e in exp):
+            st("multi_sweep_tables:with_one_point_sweep")
+        if any(max(e["f"]) < min(exp[0]["f"]) or min(e["f"]) > max(exp[0]["f"]) for e in exp[1:]):
+            st("multi_sweep_tables:with_sweep_disjoint_from_first")
 
     # ---- DataFrame jobs --------------------------------------------------------------------------
     if layout == "df":
@@ -597,6 +618,9 @@ def finalize(agg):
             inc.append(f"recorder never saw {name} being called")
     if st.get("cli_tables", 0) == 0:
         inc.append("no table printed by the CLI was re-parsed")
+    for name in ("last_row_beyond_first_row", "sweeps_of_different_length", "with_one_point_sweep", "with_sweep_disjoint_from_first"):
+        if st.get("multi_sweep_tables:" + name, 0) == 0:
+            inc.append(f"no multi-sweep table of kind '{name}' was written")
     if st.get("frames:df", 0) == 0 or st.get("frames:emit", 0) == 0:
         inc.append("dataframe_to_data_sets / to_dataframe were not exercised")
     if agg["tier"] == "quick" and "pairwise:value_pairs_covered" not in st:
